@@ -257,6 +257,10 @@ func (pipeline *Pipeline) OutputLanguages() (languages.Languages, error) {
 	outputs := make(languages.Languages)
 
 	for _, output := range pipeline.Output.Languages {
+		if err := cogyaml.OneMemberOnly("languages", *output); err != nil {
+			return nil, err
+		}
+
 		switch {
 		case output.Go != nil:
 			outputs[golang.LanguageRef] = golang.New(*output.Go)
